@@ -27,6 +27,7 @@ import (
 	"sync/atomic"
 	"testing"
 	"time"
+	"unsafe"
 
 	"github.com/theparanoids/ysshra/verifh"
 	"golang.org/x/crypto/ssh"
@@ -439,9 +440,24 @@ func (in *zvfVInst) project() zvfVState {
 			st.C = append(st.C, "?"+hex.EncodeToString(h[:4]))
 		}
 	}
-	st.L = in.srv.locked
+	st.L = zvfLockedFlag(in.srv)
 	st.D = in.closed || in.px.Dead()
 	return st.norm()
+}
+
+// zvfLockedFlag reads Server.locked whatever its representation (bool today; an atomic.Bool is an equally good one).
+func zvfLockedFlag(s *Server) bool {
+	v := reflect.ValueOf(s).Elem().FieldByName("locked")
+	if !v.IsValid() {
+		panic("verif: Server has no field named locked (harness needs adapting)")
+	}
+	if v.Kind() == reflect.Bool {
+		return v.Bool()
+	}
+	if l, ok := reflect.NewAt(v.Type(), unsafe.Pointer(v.UnsafeAddr())).Interface().(interface{ Load() bool }); ok {
+		return l.Load()
+	}
+	panic("verif: Server.locked has an unknown representation (harness needs adapting)")
 }
 
 // zvfSameObs compares two projected states without the upstream-certificate cache: the cache is an internal
@@ -595,6 +611,83 @@ func (in *zvfVInst) exec(op, arg string) (res zvfVRes) {
 		return zvfVRes{Ok: s.Lock([]byte(arg)) == nil}
 	case "unlock":
 		return zvfVRes{Ok: s.Unlock([]byte(arg)) == nil}
+	case "lockrace", "lockrace2":
+		// Lock(arg) is in flight (the underlying agent has its lock request and has not answered yet) when another
+		// client's List (lockrace) / RemoveAll (lockrace2) arrives.  ok = Lock's result; the other call's outcome goes
+		// into l1/l2 (listing) resp. by ("ra-ok" / "ra-err").
+		reached, release := make(chan struct{}), make(chan struct{})
+		var once sync.Once
+		oldGate := in.px.Gate
+		in.px.Gate = func(req []byte) {
+			if len(req) > 0 && req[0] == 22 {
+				hit := false
+				once.Do(func() { hit = true })
+				if hit {
+					close(reached)
+					<-release
+				}
+			}
+			if oldGate != nil {
+				oldGate(req)
+			}
+		}
+		defer func() { in.px.Gate = oldGate }()
+		lockDone := make(chan bool, 1)
+		go func() { lockDone <- s.Lock([]byte(arg)) == nil }()
+		select {
+		case <-reached:
+		case ok := <-lockDone:
+			// Lock returned without asking the underlying agent (refused): no race to stage
+			once.Do(func() {})
+			if op == "lockrace" {
+				ks, err := s.List()
+				if err != nil {
+					return zvfVRes{Ok: ok, By: "list-err"}
+				}
+				var ids []string
+				for _, k := range ks {
+					ids = append(ids, in.idOf(k.Blob))
+				}
+				l1, l2 := zvfBag(ids)
+				return zvfVRes{Ok: ok, L1: l1, L2: l2, By: "list-ok"}
+			}
+			if s.RemoveAll() == nil {
+				return zvfVRes{Ok: ok, By: "ra-ok"}
+			}
+			return zvfVRes{Ok: ok, By: "ra-err"}
+		}
+		type bres struct {
+			ids []string
+			err error
+		}
+		bDone := make(chan bres, 1)
+		go func() {
+			if op == "lockrace" {
+				ks, err := s.List()
+				var ids []string
+				for _, k := range ks {
+					ids = append(ids, in.idOf(k.Blob))
+				}
+				bDone <- bres{ids, err}
+			} else {
+				bDone <- bres{nil, s.RemoveAll()}
+			}
+		}()
+		time.Sleep(40 * time.Millisecond) // the second call is now queued behind Lock (or past a check it should not have passed yet)
+		close(release)
+		ok := <-lockDone
+		b := <-bDone
+		if op == "lockrace" {
+			if b.err != nil {
+				return zvfVRes{Ok: ok, By: "list-err"}
+			}
+			l1, l2 := zvfBag(b.ids)
+			return zvfVRes{Ok: ok, L1: l1, L2: l2, By: "list-ok"}
+		}
+		if b.err == nil {
+			return zvfVRes{Ok: ok, By: "ra-ok"}
+		}
+		return zvfVRes{Ok: ok, By: "ra-err"}
 	case "close":
 		err := s.Close()
 		if err == nil {
@@ -1163,6 +1256,11 @@ func zvfVRandomTrace(plan *zvfVPlan, ti int, tr *verifh.Trace, st *zvfVStats) {
 					} else {
 						arg = zvfPick(rnd, cids)
 					}
+				case "lockrace", "lockrace2":
+					if cur.L || cur.Ul || cur.D {
+						continue pick
+					}
+					arg = zvfPick(rnd, u.Pass)
 				case "lock", "unlock":
 					arg = zvfPick(rnd, u.Pass)
 					if op == "unlock" && cur.L && rnd.Intn(2) == 0 && cur.Up != "?" {
@@ -1188,7 +1286,7 @@ func zvfVRandomTrace(plan *zvfVPlan, ti int, tr *verifh.Trace, st *zvfVStats) {
 				}
 				break
 			}
-			if len(cfg.Faults) > 0 && rnd.Intn(12) == 0 && !cur.L && !cur.D && op != "fstorm" {
+			if len(cfg.Faults) > 0 && rnd.Intn(12) == 0 && !cur.L && !cur.D && op != "fstorm" && op != "lockrace" && op != "lockrace2" {
 				f = zvfVFault{Kind: zvfPick(rnd, cfg.Faults), Hit: zvfPick(rnd, []string{"list", "sign", "add", "remove", "removeall", "lock", "unlock", "raw", "list", "remove"})}
 			}
 		}
